@@ -205,6 +205,14 @@ def _method(desc, V, alg):
                                    fkey=f'method|{op}|raise-mismatch'))
             continue
         claims += mv_eq_claims(f'{op}:{var["how"]}[{i}]', r, coeffs(base), fkey=f'method|{op}|{var["how"]}')
+    if op in ('norm', 'normalized') and V.symbolic and sym.cur().assumptions:
+        # e.g. a blade of negative square: the norm is real only for the zero element, and the variants' own
+        # side conditions (non-zero norm) then contradict it -- outside the real domain, nothing to prove
+        import z3
+        s_ = z3.Solver(); s_.set('timeout', 20000); s_.add(*sym.cur().assumptions)
+        if s_.check() == z3.unsat:
+            del sym.cur().assumptions[:]
+            return [Eq('outside-real-domain', 1, 1)]
     claims.append(Eq('reached', 1, 1))
     return claims
 
